@@ -470,6 +470,78 @@ async fn probe_blobs21() {
     }
 }
 
+async fn probe_fsl_wide() {
+    // FixedSizeList of 16-byte (decimal128) / 8-byte values, various dimensions
+    for ver in [LanceFileVersion::V2_0, LanceFileVersion::V2_1, LanceFileVersion::V2_2] {
+        for (tname, child_dt) in [("dec128", DataType::Decimal128(18, 3)), ("i64", DataType::Int64), ("f32", DataType::Float32)] {
+            for dim in [1i32, 2, 7, 8, 9, 17, 33] {
+                for nullable in [false, true] {
+                    for rows in [1usize, 3] {
+                        let n = rows * dim as usize;
+                        let child: ArrayRef = match &child_dt {
+                            DataType::Decimal128(p, s) => Arc::new(
+                                Decimal128Array::from((0..n as i128).collect::<Vec<_>>()).with_precision_and_scale(*p, *s).unwrap(),
+                            ),
+                            DataType::Int64 => Arc::new(Int64Array::from((0..n as i64).collect::<Vec<_>>())),
+                            _ => Arc::new(Float32Array::from((0..n).map(|x| x as f32).collect::<Vec<_>>())),
+                        };
+                        let f = FixedSizeListArray::new(
+                            Arc::new(Field::new("item", child_dt.clone(), true)),
+                            dim,
+                            child,
+                            None,
+                        );
+                        let schema = Arc::new(Schema::new(vec![
+                            Field::new("id", DataType::Int64, false),
+                            Field::new("v", f.data_type().clone(), nullable),
+                        ]));
+                        let b = RecordBatch::try_new(schema, vec![ids(0, rows), Arc::new(f)]).unwrap();
+                        roundtrip(&format!("fsl-{tname}-dim{dim}-nullable{nullable}-rows{rows}"), vec![b], ver, |_| {}).await;
+                    }
+                }
+            }
+        }
+    }
+}
+
+async fn probe_fsl_dec() {
+    let w: Vec<i128> = vec![9, 12, -2, 1, 9, 4, -1, 8, -3, 4, 8, 11, 1, 3, -3, 1, 8];
+    let cases: Vec<(&str, Vec<i128>)> = vec![
+        ("witness", w.clone()),
+        ("witness-abs", w.iter().map(|x| x.abs()).collect()),
+        ("one-negative", (0..17).map(|i| if i == 3 { -1 } else { i as i128 }).collect()),
+        ("all-negative", (0..17).map(|i| -(i as i128) - 1).collect()),
+        ("dim2-neg", vec![-1, 5]),
+        ("dim1-neg", vec![-1]),
+        ("dim8-neg", vec![1, 2, 3, -4, 5, 6, 7, 8]),
+        ("dim9-neg", vec![1, 2, 3, -4, 5, 6, 7, 8, 9]),
+    ];
+    for ver in [LanceFileVersion::V2_0, LanceFileVersion::V2_1, LanceFileVersion::V2_2] {
+        for (name, vals) in &cases {
+            for (tname, as_i64) in [("dec128", false), ("i64", true)] {
+                let dim = vals.len() as i32;
+                let (child, dt): (ArrayRef, DataType) = if as_i64 {
+                    (Arc::new(Int64Array::from(vals.iter().map(|x| *x as i64).collect::<Vec<_>>())), DataType::Int64)
+                } else {
+                    (
+                        Arc::new(Decimal128Array::from(vals.clone()).with_precision_and_scale(18, 8).unwrap()),
+                        DataType::Decimal128(18, 8),
+                    )
+                };
+                let f = FixedSizeListArray::new(Arc::new(Field::new("item", dt, true)), dim, child, None);
+                let schema = Arc::new(Schema::new(vec![
+                    Field::new("id", DataType::Int64, false),
+                    Field::new("v", f.data_type().clone(), true),
+                ]));
+                for (iname, id0) in [("id0", 0i64), ("bigid", 470590976688129i64)] {
+                    let b = RecordBatch::try_new(schema.clone(), vec![ids(id0, 1), Arc::new(f.clone())]).unwrap();
+                    roundtrip(&format!("fsldec-{name}-{tname}-{iname}"), vec![b], ver, |_| {}).await;
+                }
+            }
+        }
+    }
+}
+
 pub fn run(args: &Args) -> i32 {
     crate::util::install_quiet_panic_hook();
     let rt = tokio::runtime::Builder::new_current_thread().enable_all().build().unwrap();
@@ -480,6 +552,8 @@ pub fn run(args: &Args) -> i32 {
             "itemnull" => probe_list_itemnull().await,
             "nulllist" => probe_nulllist().await,
             "blobs" => probe_blobs().await,
+            "fsldec" => probe_fsl_dec().await,
+            "fslwide" => probe_fsl_wide().await,
             "blobs21" => probe_blobs21().await,
             "nestedlist" => probe_nested_list().await,
             "allnulllist" => probe_allnull_list().await,
